@@ -70,6 +70,11 @@ func (p Precompile) ClaimRewards(
 		return nil, err
 	}
 
+	// NOTE: the rewards are paid to the delegator's withdraw address, which need not be the caller: bring the
+	// balances the EVM stateDB has cached in line with the bank keeper, so that committing the EVM state does
+	// not overwrite them.
+	stateDB.(*statedb.StateDB).SyncBalances()
+
 	return method.Outputs.Pack(true)
 }
 
@@ -137,11 +142,10 @@ func (p Precompile) WithdrawDelegatorRewards(
 		return nil, err
 	}
 
-	// NOTE: This ensures that the changes in the bank keeper are correctly mirrored to the EVM stateDB.
-	// This prevents the stateDB from overwriting the changed balance in the bank keeper when committing the EVM state.
-	if isContractDelegator {
-		stateDB.(*statedb.StateDB).AddBalance(contract.CallerAddress, res.Amount[0].Amount.BigInt())
-	}
+	// NOTE: the rewards are paid to the delegator's withdraw address, which need not be the caller: bring the
+	// balances the EVM stateDB has cached in line with the bank keeper, so that committing the EVM state does
+	// not overwrite them.
+	stateDB.(*statedb.StateDB).SyncBalances()
 
 	return method.Outputs.Pack(cmn.NewCoinsResponse(res.Amount))
 }
@@ -176,6 +180,11 @@ func (p Precompile) WithdrawValidatorCommission(
 	if err = p.EmitWithdrawValidatorCommissionEvent(ctx, stateDB, msg.ValidatorAddress, res.Amount); err != nil {
 		return nil, err
 	}
+
+	// NOTE: the rewards are paid to the delegator's withdraw address, which need not be the caller: bring the
+	// balances the EVM stateDB has cached in line with the bank keeper, so that committing the EVM state does
+	// not overwrite them.
+	stateDB.(*statedb.StateDB).SyncBalances()
 
 	return method.Outputs.Pack(cmn.NewCoinsResponse(res.Amount))
 }
